@@ -264,6 +264,16 @@ func (r *mapRun) exec(op absOp) {
 	if op.H != 0 {
 		h = r.hs[op.H]
 	}
+	switch op.Op {
+	case "ins", "del", "get", "iter", "size", "clone", "cursor", "root":
+		if h == nil || h.m == nil {
+			return // the handle was never obtained (an earlier call failed and was reported): nothing to execute
+		}
+	case "cwalk":
+		if g := r.hs[op.G]; g == nil || g.cursor == nil {
+			return
+		}
+	}
 	r.st.begin()
 	switch op.Op {
 	case "new":
@@ -545,7 +555,57 @@ func randomMapTrace(id int, seed int64, steps int, out *json.Encoder, fixed *map
 		case h == 0 || x < w[0]:
 			if g := freeSlot(); g != 0 {
 				r.exec(absOp{Op: "new", H: g})
-				sh.live[g] = map[int]int{}
+				if _, ok := r.hs[g]; ok {
+					sh.live[g] = map[int]int{}
+				}
+			}
+		case x < w[1] && (x%7 == 0 || (profile == "versions" && x%3 == 0)):
+			// a burst around a structural change: (persist,) insert the absent key of the highest layer (splits the nodes
+			// below it), then change or remove its neighbours (edits the halves), or remove the present key of the highest layer
+			// (merges) and then touch its neighbours
+			if rng.Intn(2) == 0 {
+				before := r.nextR
+				r.exec(absOp{Op: "root", H: h})
+				if r.nextR != before {
+					cp := map[int]int{}
+					for k, v := range sh.live[h] {
+						cp[k] = v
+					}
+					rootModels[r.nextR] = cp
+				}
+			}
+			pick, insert := 0, rng.Intn(3) != 0
+			for k := 1; k <= cfg.NK; k++ {
+				_, present := sh.live[h][k]
+				if present != insert && (pick == 0 || r.kc.layers[k-1] > r.kc.layers[pick-1]) {
+					pick = k
+				}
+			}
+			if pick != 0 {
+				if insert {
+					v := 1 + rng.Intn(cfg.NV)
+					r.exec(absOp{Op: "ins", H: h, K: pick, V: v})
+					sh.live[h][pick] = v
+				} else {
+					r.exec(absOp{Op: "del", H: h, K: pick, V: sh.live[h][pick]})
+					delete(sh.live[h], pick)
+				}
+				for _, nb := range []int{pick - 1, pick + 1, pick - 2, pick + 2} {
+					if nb < 1 || nb > cfg.NK || rng.Intn(3) == 0 {
+						continue
+					}
+					if old, present := sh.live[h][nb]; present && rng.Intn(3) == 0 {
+						r.exec(absOp{Op: "del", H: h, K: nb, V: old})
+						delete(sh.live[h], nb)
+					} else {
+						v := 1 + rng.Intn(cfg.NV)
+						if present {
+							v = old%cfg.NV + 1
+						}
+						r.exec(absOp{Op: "ins", H: h, K: nb, V: v})
+						sh.live[h][nb] = v
+					}
+				}
 			}
 		case x < w[1]:
 			k, v := 1+rng.Intn(cfg.NK), 1+rng.Intn(cfg.NV)
@@ -583,11 +643,13 @@ func randomMapTrace(id int, seed int64, steps int, out *json.Encoder, fixed *map
 		case x < w[5]:
 			if g := freeSlot(); g != 0 {
 				r.exec(absOp{Op: "clone", H: h, G: g})
-				cp := map[int]int{}
-				for k, v := range sh.live[h] {
-					cp[k] = v
+				if _, ok := r.hs[g]; ok {
+					cp := map[int]int{}
+					for k, v := range sh.live[h] {
+						cp[k] = v
+					}
+					sh.live[g] = cp
 				}
-				sh.live[g] = cp
 			}
 		case x < w[6]:
 			if g := freeSlot(); g != 0 {
